@@ -223,6 +223,7 @@ package process
 
 //@ contract (*Name).Equal
 //@   ensures C14.equal: result == sameName(deref(name1), name2)
+//@   ensures C04.nameEqual: result == sameName(deref(name1), name2)      // the interpreter substitutes by channel identity: C04's steps rest on it
 //@   safety C09
 //@   pure
 
@@ -241,6 +242,7 @@ package process
 //@   inline
 //@   ensures C14.substHit: sameName(old(deref(n)), old) ==> replacedBy(deref(n), old(deref(n)), new)
 //@   ensures C14.substMiss: !sameName(old(deref(n)), old) ==> deref(n) == old(deref(n))
+//@   ensures C04.nameSubst: ite(sameName(old(deref(n)), old), replacedBy(deref(n), old(deref(n)), new), deref(n) == old(deref(n)))
 //@   ensures C14.substOnly: forall x *Name :: x != n ==> deref(x) == old(deref(x))
 //@   safety C09
 
@@ -1161,6 +1163,8 @@ package process
 //@   ensures[C04] C04.nameCopy: result != nil && born(result) >= old(allocCounter()) && sameNm(deref(result), old(deref(n)))
 //@ contract CopyForm
 //@   ensures[C04] C04.copyIsCopy: copyOf(result, orig)
+//@   loop[C04] 1 counts i, 0, len(p.branches)
+//@   loop[C04] 2 counts i, 0, len(p.parameters)
 //@   loop[C04] 1 invariant (len(p.branches) == 0 || backing(branches) != backing(p.branches)) && forall j int :: 0 <= j && j < i && p.branches[j] != nil ==> branches[j].label == p.branches[j].label && sameNm(branches[j].payload_c, p.branches[j].payload_c)
 //@   loop[C04] 2 invariant 0 <= i && i <= len(p.parameters) && len(copiedParameters) == len(p.parameters) && (forall j int :: 0 <= j && j < i ==> sameNm(copiedParameters[j], p.parameters[j]))
 //@   ensures[C04] C04.copyFresh: result != nil && copiedHere(result, old(allocCounter()))
@@ -1180,6 +1184,8 @@ package process
 //@   callsite[C04] C04.callArgs4 process.Form.Substitute#5: arg0 == functionCallBody && 1 <= i && arg1 == functionCall.Parameters[i - 1] && arg2 == f.parameters[i]
 //@   loop[C04] 2 invariant 1 <= i
 //@   loop[C04] 4 invariant 1 <= i
+//@   loop[C04] 2 counts i, 1, len(f.parameters)
+//@   loop[C04] 4 counts i, 1, len(f.parameters)
 //@   callsite[C04] C04.callStep (*process.Process).transitionLoop#1: arg0 == process && process.Body == functionCallBody && process.Providers == old(process.Providers)
 //@   callsite[C04] C04.callFresh (*process.Process).transitionLoop#1: copiedHere(functionCallBody, old(allocCounter()))
 
@@ -1324,6 +1330,8 @@ package process
 //@   callsite[C04] C04.npcallArgs4 process.Form.Substitute#5: arg0 == functionCallBody && 1 <= i && arg1 == functionCall.Parameters[i - 1] && arg2 == f.parameters[i]
 //@   loop[C04] 2 invariant 1 <= i
 //@   loop[C04] 4 invariant 1 <= i
+//@   loop[C04] 2 counts i, 1, len(f.parameters)
+//@   loop[C04] 4 counts i, 1, len(f.parameters)
 //@   callsite[C04] C04.npcallStep (*process.Process).transitionLoopNP#1: arg0 == process && process.Body == functionCallBody && process.Providers == old(process.Providers)
 //@   callsite[C04] C04.npcallFresh (*process.Process).transitionLoopNP#1: copiedHere(functionCallBody, old(allocCounter()))
 
@@ -1387,10 +1395,13 @@ package process
 //@ macro runChannel(n Name, a int) bool = n.Channel != nil && born(n.Channel) >= a && !n.IsSelf
 //@ contract (*RuntimeEnvironment).CreateChannelForEachProcess
 //@   requires[C04] modeKnown(re) && (forall a int :: 0 <= a && a < len(processes) ==> processes[a] != nil)
+//@   loop[C04] 1 counts i, 0, len(processes)
+//@   loop[C04] 2 counts j, 0, len(processes[i].Providers)
 //@   ensures[C04] C04.initAllProviders: forall a int, b int :: 0 <= a && a < len(processes) && 0 <= b && b < len(processes[a].Providers) ==> runChannel(processes[a].Providers[b], old(allocCounter()))
 //@   loop[C04] 1 invariant 0 <= i && (forall a int, b int :: 0 <= a && a < i && a < len(processes) && 0 <= b && b < len(processes[a].Providers) ==> runChannel(processes[a].Providers[b], old(allocCounter())))
 //@   loop[C04] 2 invariant 0 <= i && i < len(processes) && 0 <= j && (forall a int, b int :: 0 <= a && a < i && 0 <= b && b < len(processes[a].Providers) ==> runChannel(processes[a].Providers[b], old(allocCounter()))) && (forall b int :: 0 <= b && b < j && b < len(processes[i].Providers) ==> runChannel(processes[i].Providers[b], old(allocCounter())))
 //@ contract (*RuntimeEnvironment).SubstituteNameInitialization
+//@   loop[C04] 1 counts i, 0, len(processes)
 //@   callsite[C04] C04.initSubst process.Form.Substitute#1: 0 <= i && i < len(processes) && arg0 == processes[i].Body && arg1 == channels[idx2 + 1].old && arg2 == channels[idx2 + 1].new
 //@ contract (*RuntimeEnvironment).StartTransitions
 //@   callsite[C04] C04.startAsync (*process.Process).SpawnThenTransition#1: re.ExecutionVersion == NORMAL_ASYNC && arg0 == processes[idx1 + 1] && arg1 == re
